@@ -10,10 +10,25 @@
    Values are the values a paramclass instance can hold after pydantic validation:
      None, int, float (carried as the text of Python's repr, which is injective on non-NaN floats and is
      what str() prints), str, bool, enum member (index in the class), reference to a Module / Generator /
-     ExternalModule object (identity), nested paramclass instance (its field values in order). *)
+     ExternalModule / PrimitiveCall / ExternalModuleCall object (identity, or == for the two kinds of call),
+     nested paramclass instance (its field values in order), and the number-like values of h.Scalar,
+     h.Prefixed and Decimal fields.
+
+   THREE LEVELS of a value.  (1) as the caller writes it (an int for a float field, a str / int / float / Decimal
+   for an h.Scalar field, ...); (2) as the validated paramclass instance holds it: `validate` (pydantic; for a
+   Scalar field hdl21/scalar.py:to_scalar) - a Prefixed is held AS WRITTEN, number : Decimal (sign, coefficient,
+   exponent) and prefix, `VPrefW`; (3) the cache key: `canon` maps a level-2 value to the canonical
+   representative of its ==-class - for a Prefixed the normal form (c, e), c not divisible by ten, of its exact
+   value number * 10^prefix, which is what Prefixed.__hash__ hashes (Model/Prefixed.v: phash) and what the
+   repaired params.py:hdl21_naming_encoder writes (`_value_name`).  `inst_eqb` is == on level-2 values
+   (Prefixed.__eq__ = Model/Prefixed.v: pcmp OEq); Proofs/ParamNameProofs.v shows that the model's key equality
+   (Leibniz on level 3) is the implementation's dict lookup on level 2 (hash equal and ==), and is == itself
+   whenever no Prefixed number has more than EPSILON = 20 decimal places. *)
 Require Import Hdl21.Base.PyInt.
 From Coq Require Import String Ascii DecimalString DecimalZ.
 Require Import Hdl21Gen.Limits.
+(* qualified use only (Dec.dec, Prefixed.pcmp, ...): both files define names that are also used here *)
+Require Hdl21.Base.Dec Hdl21.Model.Prefixed Hdl21Gen.PrefixTable.
 Open Scope string_scope.
 Open Scope Z_scope.
 
@@ -21,12 +36,20 @@ Inductive dtype :=
 | DInt | DFloat | DStr | DBool
 | DOpt (d : dtype)
 | DEnum (n : N)                 (* an Enum class with n members *)
-| DRef                          (* Module / Generator / ExternalModule valued field *)
-| DRec (ds : list dtype).       (* nested paramclass: dtypes of its fields *)
+| DRef                          (* Module / Generator / ExternalModule / PrimitiveCall / ExternalModuleCall valued field *)
+| DRec (ds : list dtype)        (* nested paramclass: dtypes of its fields *)
+| DScalar                       (* h.Scalar = Union[Prefixed, Literal] with the to_scalar conversions *)
+| DPref                         (* h.Prefixed *)
+| DDec.                         (* decimal.Decimal *)
 
 Inductive pval :=
 | VNone | VInt (z : Z) | VFloat (r : string) | VStr (s : string) | VBool (b : bool)
-| VEnum (i : N) | VRef (i : N) | VRec (vs : list pval).
+| VEnum (i : N) | VRef (i : N) | VRec (vs : list pval)
+| VLit (s : string)                     (* h.Literal(text) *)
+| VPrefW (d : Dec.dec) (q : Z)          (* levels 1, 2: Prefixed(number = d, prefix = the member of value q), as written *)
+| VDecW (d : Dec.dec)                   (* levels 1, 2: a Decimal as written *)
+| VPref (c e : Z)                       (* level 3: the prefixed numbers of value c * 10^e *)
+| VDec (c e : Z).                       (* level 3: the decimals of value c * 10^e *)
 
 (* ---------- decimal text of an int: str(int) ---------- *)
 Definition dec (z : Z) : string := NilEmpty.string_of_int (Z.to_int z).
@@ -40,12 +63,122 @@ Fixpoint all_chars (p : ascii -> bool) (s : string) : bool :=
 
 (* the alphabet of repr(float): digits, sign, point, exponent, "inf", "nan" *)
 Definition float_char (a : ascii) : bool := has_char a "0123456789+-.einfa".
-(* a float is carried as repr text.  Negative zero is excluded: it compares equal to 0.0 but prints
-   differently (see notes/C09.md, finding C09:negzero) *)
+(* a float is carried as repr text (nan excluded: it is not equal to itself).  Negative zero compares equal to 0.0
+   but prints differently: a validated instance may hold either (float_held), the cache key is the repr of 0.0 for both
+   (fzero: -0.0 == 0.0 and hash(-0.0) == hash(0.0); the repaired params.py:_named_value names both as 0.0), so that
+   cache-key floats (float_ok) are never "-0.0" *)
+Definition float_held (r : string) : bool :=
+  all_chars float_char r && negb (String.eqb r "") && negb (String.eqb r "nan").
 Definition float_ok (r : string) : bool :=
   all_chars float_char r && negb (String.eqb r "") && negb (String.eqb r "-0.0") && negb (String.eqb r "nan").
+Definition fzero (r : string) : string := if String.eqb r "-0.0" then "0.0" else r.
 
-(* ---------- well-typed (validated) values ---------- *)
+(* ---------- number-like values ---------- *)
+(* the normal form of a value: (0, 0) for zero, otherwise the coefficient is not divisible by ten *)
+Definition canon_ok (c e : Z) : bool := if c =? 0 then e =? 0 else negb (c mod 10 =? 0).
+
+(* params.py:_value_name(num) = Dec.dnorm: strip the trailing zeros of the coefficient, zero is (0, 0).
+   (dnorm's fuel never runs out: Dec.dnorm_total) *)
+Definition canon_dec (d : Dec.dec) : result (Z * Z) :=
+  match Dec.dnorm d with Some ce => Ok ce | None => Error EFuel end.
+(* hdl21_naming_encoder: _value_name(obj.scale(Prefix.UNIT).number) - the same normal form that Prefixed.__hash__ hashes *)
+Definition canon_pref (d : Dec.dec) (q : Z) : result (Z * Z) :=
+  x <- Prefixed.unit_number (Prefixed.mkP d q) ;; canon_dec x.
+
+(* ---------- Decimal(str): value.strip().replace("_", "") must match  [-+]? (digits [. digits*] | . digits) ([eE] [-+]? digits)?
+   (the special values Inf / NaN are rejected later by pydantic's finite-number check, so that not matching and
+   matching a special value have the same outcome).  Only printable ASCII strings occur in cases, where the only
+   white space is ' '. ---------- *)
+Definition digit_of (a : ascii) : option Z :=
+  let n := Z.of_nat (nat_of_ascii a) in if (48 <=? n) && (n <=? 57) then Some (n - 48) else None.
+
+Fixpoint take_digits (s : string) (acc n : Z) : Z * Z * string :=
+  match s with
+  | String a s' => match digit_of a with Some k => take_digits s' (acc * 10 + k) (n + 1) | None => (acc, n, s) end
+  | EmptyString => (acc, n, s)
+  end.
+
+Definition take_sign (s : string) : bool * string :=
+  match s with
+  | String a s' => if Ascii.eqb a "-" then (true, s') else if Ascii.eqb a "+" then (false, s') else (false, s)
+  | EmptyString => (false, s)
+  end.
+
+Fixpoint lstrip (s : string) : string :=
+  match s with String a s' => if Ascii.eqb a " " then lstrip s' else s | EmptyString => s end.
+Fixpoint rstrip (s : string) : string :=
+  match s with
+  | EmptyString => EmptyString
+  | String a s' => let t := rstrip s' in
+                   if Ascii.eqb a " " && match t with EmptyString => true | _ => false end then EmptyString else String a t
+  end.
+Fixpoint remove_us (s : string) : string :=
+  match s with String a s' => if Ascii.eqb a "_" then remove_us s' else String a (remove_us s') | EmptyString => s end.
+
+(* exponents beyond this bound are not modelled (decimal's own limit is near 10^18) *)
+Definition exp_limit : Z := 1000000000000000.
+
+Inductive parsed := PNum (d : Dec.dec) | PNone | PUnmodelled.
+
+Definition parse_plain (s : string) : parsed :=
+  let '(neg, s1) := take_sign s in
+  let '(ip, ni, s2) := take_digits s1 0 0 in
+  let '(c, nf, s3) := match s2 with
+                      | String a s2' => if Ascii.eqb a "." then take_digits s2' ip 0 else (ip, 0, s2)
+                      | EmptyString => (ip, 0, s2)
+                      end in
+  if ni + nf =? 0 then PNone else
+  match s3 with
+  | EmptyString => PNum (Dec.mkDec neg (Z.to_N c) (- nf))
+  | String a s4 =>
+      if Ascii.eqb a "e" || Ascii.eqb a "E" then
+        let '(eneg, s5) := take_sign s4 in
+        let '(ev, ne, s6) := take_digits s5 0 0 in
+        if (ne =? 0) || negb (String.eqb s6 "") then PNone
+        else if exp_limit <=? ev then PUnmodelled
+        else PNum (Dec.mkDec neg (Z.to_N c) ((if eneg then - ev else ev) - nf))
+      else PNone
+  end.
+
+Definition parse_pystr (s : string) : parsed := parse_plain (remove_us (rstrip (lstrip s))).
+
+(* Decimal(str(x)) of a float x carried as its repr text: 'inf' / 'nan' do not parse (pydantic: finite numbers only) *)
+Definition dec_of_float (r : string) : result Dec.dec :=
+  match parse_plain r with PNum d => Ok d | PNone => Error EBadKind | PUnmodelled => Error EOther end.
+
+(* ---------- level 2: the field values of a validated paramclass instance ---------- *)
+Fixpoint valid (d : dtype) (v : pval) {struct d} : bool :=
+  match d, v with
+  | DInt, VInt _ => true
+  | DFloat, VFloat r => float_held r
+  | DStr, VStr _ => true
+  | DBool, VBool _ => true
+  | DOpt _, VNone => true
+  | DOpt d', _ => valid d' v
+  | DEnum n, VEnum i => N.ltb i n
+  | DRef, VRef _ => true
+  | DRec ds, VRec vs =>
+      (fix go (ds : list dtype) (vs : list pval) {struct ds} : bool :=
+         match ds, vs with
+         | [], [] => true
+         | d' :: ds', v' :: vs' => valid d' v' && go ds' vs'
+         | _, _ => false
+         end) ds vs
+  | DScalar, VPrefW _ q => Prefixed.is_prefix q
+  | DScalar, VLit _ => true
+  | DPref, VPrefW _ q => Prefixed.is_prefix q
+  | DDec, VDecW _ => true
+  | _, _ => false
+  end.
+
+Fixpoint valid_all (ds : list dtype) (vs : list pval) : bool :=
+  match ds, vs with
+  | [], [] => true
+  | d :: ds', v :: vs' => valid d v && valid_all ds' vs'
+  | _, _ => false
+  end.
+
+(* ---------- level 3: cache keys ---------- *)
 Fixpoint typed (d : dtype) (v : pval) {struct d} : bool :=
   match d, v with
   | DInt, VInt _ => true
@@ -63,6 +196,10 @@ Fixpoint typed (d : dtype) (v : pval) {struct d} : bool :=
          | d' :: ds', v' :: vs' => typed d' v' && go ds' vs'
          | _, _ => false
          end) ds vs
+  | DScalar, VPref c e => canon_ok c e
+  | DScalar, VLit _ => true
+  | DPref, VPref c e => canon_ok c e
+  | DDec, VDec c e => canon_ok c e
   | _, _ => false
   end.
 
@@ -73,7 +210,10 @@ Fixpoint typed_all (ds : list dtype) (vs : list pval) : bool :=
   | _, _ => false
   end.
 
-(* ---------- boolean equality of values (Python == on validated field values) ---------- *)
+(* ---------- structural equality of values (on level 3: the equality of cache keys) ---------- *)
+Definition dec_eqb (a b : Dec.dec) : bool :=
+  Bool.eqb (Dec.dsign a) (Dec.dsign b) && N.eqb (Dec.dcoef a) (Dec.dcoef b) && (Dec.dexp a =? Dec.dexp b).
+
 Fixpoint pval_eqb (a b : pval) {struct a} : bool :=
   match a, b with
   | VNone, VNone => true
@@ -90,6 +230,11 @@ Fixpoint pval_eqb (a b : pval) {struct a} : bool :=
          | x :: xs', y :: ys' => pval_eqb x y && go xs' ys'
          | _, _ => false
          end) xs ys
+  | VLit x, VLit y => String.eqb x y
+  | VPrefW x q, VPrefW y r => dec_eqb x y && (q =? r)
+  | VDecW x, VDecW y => dec_eqb x y
+  | VPref c e, VPref c' e' => (c =? c') && (e =? e')
+  | VDec c e, VDec c' e' => (c =? c') && (e =? e')
   | _, _ => false
   end.
 
@@ -100,34 +245,146 @@ Fixpoint pvals_eqb (xs ys : list pval) : bool :=
   | _, _ => false
   end.
 
-(* ---------- call normalisation: what pydantic stores for a value written by the caller ---------- *)
+(* ---------- comparing level-2 values field by field: the number-like leaves by a given test, paramclass instances
+   recursively (the dataclass __eq__ / __hash__ of a paramclass instance go through the fields in order), everything
+   else as on level 3 (floats: == is equality of the repr texts except for -0.0 == 0.0; nan is excluded).
+   A Prefixed against a Literal is not modelled (Prefixed.__eq__ raises): false. ---------- *)
+Section Lift.
+Variable RP : Dec.dec -> Z -> Dec.dec -> Z -> bool.
+Variable RD : Dec.dec -> Dec.dec -> bool.
+Variable RF : string -> string -> bool.
+Fixpoint lift_eqb (a b : pval) {struct a} : bool :=
+  match a, b with
+  | VPrefW x q, VPrefW y r => RP x q y r
+  | VDecW x, VDecW y => RD x y
+  | VFloat x, VFloat y => RF x y
+  | VRec xs, VRec ys =>
+      (fix go (xs ys : list pval) {struct xs} : bool :=
+         match xs, ys with
+         | [], [] => true
+         | x :: xs', y :: ys' => lift_eqb x y && go xs' ys'
+         | _, _ => false
+         end) xs ys
+  | VPref _ _, _ | VDec _ _, _ => false
+  | _, _ => pval_eqb a b
+  end.
+Fixpoint lifts_eqb (xs ys : list pval) : bool :=
+  match xs, ys with
+  | [], [] => true
+  | x :: xs', y :: ys' => lift_eqb x y && lifts_eqb xs' ys'
+  | _, _ => false
+  end.
+End Lift.
+
+(* == : Prefixed.__eq__ is Model/Prefixed.v: pcmp OEq (both numbers at the smaller prefix, rounded to EPSILON places);
+   Decimal.__eq__ compares values *)
+Definition pref_eq (x : Dec.dec) (q : Z) (y : Dec.dec) (r : Z) : bool :=
+  Prefixed.pcmp Prefixed.OEq (Prefixed.mkP x q) (Prefixed.mkP y r).
+Definition float_eq (r s : string) : bool := String.eqb (fzero r) (fzero s).
+Definition inst_eqb : pval -> pval -> bool := lift_eqb pref_eq Dec.deqb float_eq.
+Definition insts_eqb : list pval -> list pval -> bool := lifts_eqb pref_eq Dec.deqb float_eq.
+
+(* hash(a) == hash(b) for an idealised (collision-free) hash of what CPython hashes: the VALUE of a Prefixed
+   (Prefixed.__hash__ = hash(self.scale(UNIT).number), Model/Prefixed.v: phash - the normal form of the number scaled to
+   UNIT, which is canon_pref) or of a Decimal, the value itself otherwise *)
+Definition res_eqb (a b : result (Z * Z)) : bool :=
+  match a, b with Ok h1, Ok h2 => (fst h1 =? fst h2) && (snd h1 =? snd h2) | _, _ => false end.
+Definition pref_hash_eq (x : Dec.dec) (q : Z) (y : Dec.dec) (r : Z) : bool := res_eqb (canon_pref x q) (canon_pref y r).
+Definition dec_hash_eq (x y : Dec.dec) : bool := res_eqb (canon_dec x) (canon_dec y).
+Definition hash_eqb : pval -> pval -> bool := lift_eqb pref_hash_eq dec_hash_eq float_eq.
+Definition hashes_eqb : list pval -> list pval -> bool := lifts_eqb pref_hash_eq dec_hash_eq float_eq.
+
+(* the dict lookup of the generator cache finds an entry when the hashes agree and the keys compare equal *)
+Definition lookup_hit (a b : list pval) : bool := hashes_eqb a b && insts_eqb a b.
+
+(* no Prefixed number has more than EPSILON decimal places: there == is equality of the exact values *)
+Fixpoint fine (v : pval) : bool :=
+  match v with
+  | VPrefW d _ => - PrefixTable.EPSILON <=? Dec.dexp d
+  | VRec vs => (fix go (vs : list pval) : bool := match vs with [] => true | x :: vs' => fine x && go vs' end) vs
+  | _ => true
+  end.
+Fixpoint fine_all (vs : list pval) : bool := match vs with [] => true | x :: vs' => fine x && fine_all vs' end.
+
+(* ---------- level 1 -> 2: what pydantic stores for a value written by the caller ---------- *)
 (* int -> float is modelled on |z| < 10^15, where repr(float(z)) is the decimal text followed by ".0" *)
 Definition float_of_int_limit : Z := 1000000000000000.
 
-Fixpoint norm (d : dtype) (v : pval) {struct d} : result pval :=
+(* scalar.py:to_scalar / pydantic's Decimal validator *)
+Definition to_number (strings_fall_back : bool) (v : pval) : result (option Dec.dec) :=
+  match v with
+  | VInt z => Ok (Some (Dec.of_int z 0))
+  | VFloat r => d <- dec_of_float r ;; Ok (Some d)
+  | VDecW d => Ok (Some d)
+  | VStr s => match parse_pystr s with
+              | PNum d => Ok (Some d)
+              | PNone => if strings_fall_back then Ok None else Error EBadKind
+              | PUnmodelled => Error EOther
+              end
+  | _ => Error EBadKind
+  end.
+
+Fixpoint validate (d : dtype) (v : pval) {struct d} : result pval :=
   match d, v with
   | DInt, VInt z => Ok (VInt z)
   | DInt, VBool b => Ok (VInt (if b then 1 else 0))
-  | DFloat, VFloat r => if float_ok r then Ok (VFloat r) else Error EBadKind
+  | DFloat, VFloat r => if float_held r then Ok (VFloat r) else Error EBadKind
   | DFloat, VInt z => if (Z.abs z <? float_of_int_limit) && float_ok (dec z ++ ".0")
                       then Ok (VFloat (dec z ++ ".0")) else Error EBadKind
   | DFloat, VBool b => Ok (VFloat (if b then "1.0" else "0.0"))
   | DStr, VStr s => Ok (VStr s)
   | DBool, VBool b => Ok (VBool b)
   | DOpt _, VNone => Ok VNone
-  | DOpt d', _ => norm d' v
+  | DOpt d', _ => validate d' v
   | DEnum n, VEnum i => if N.ltb i n then Ok (VEnum i) else Error EBadKind
   | DRef, VRef i => Ok (VRef i)
   | DRec ds, VRec vs =>
       r <- (fix go (ds : list dtype) (vs : list pval) {struct ds} : result (list pval) :=
               match ds, vs with
               | [], [] => Ok []
-              | d' :: ds', v' :: vs' => x <- norm d' v' ;; xs <- go ds' vs' ;; Ok (x :: xs)
+              | d' :: ds', v' :: vs' => x <- validate d' v' ;; xs <- go ds' vs' ;; Ok (x :: xs)
               | _, _ => Error EBadKind
               end) ds vs ;;
       Ok (VRec r)
+  | DScalar, VPrefW x q => if Prefixed.is_prefix q then Ok (VPrefW x q) else Error EBadKind
+  | DScalar, VLit s => Ok (VLit s)
+  | DScalar, _ =>                                   (* str, int, float, Decimal: Prefixed(number=v), a str falls back to Literal *)
+      o <- to_number true v ;; u <- Prefixed.unit_prefix ;;
+      match o, v with
+      | Some x, _ => Ok (VPrefW x u)
+      | None, VStr s => Ok (VLit s)
+      | None, _ => Error EBadKind
+      end
+  | DPref, VPrefW x q => if Prefixed.is_prefix q then Ok (VPrefW x q) else Error EBadKind
+  | DDec, _ => o <- to_number false v ;; match o with Some x => Ok (VDecW x) | None => Error EBadKind end
   | _, _ => Error EBadKind
   end.
+
+(* ---------- level 2 -> 3 ---------- *)
+Fixpoint canon (v : pval) {struct v} : result pval :=
+  match v with
+  | VPrefW d q => ce <- canon_pref d q ;; Ok (VPref (fst ce) (snd ce))
+  | VDecW d => ce <- canon_dec d ;; Ok (VDec (fst ce) (snd ce))
+  | VRec vs =>
+      r <- (fix go (vs : list pval) : result (list pval) :=
+              match vs with
+              | [] => Ok []
+              | x :: vs' => y <- canon x ;; ys <- go vs' ;; Ok (y :: ys)
+              end) vs ;;
+      Ok (VRec r)
+  | VFloat r => Ok (VFloat (fzero r))
+  | VPref _ _ | VDec _ _ => Error EBadKind          (* not a level-2 value *)
+  | _ => Ok v
+  end.
+
+Fixpoint canon_all (vs : list pval) : result (list pval) :=
+  match vs with
+  | [] => Ok []
+  | x :: vs' => y <- canon x ;; ys <- canon_all vs' ;; Ok (y :: ys)
+  end.
+
+(* call normalisation: written value -> cache-key value *)
+Definition norm (d : dtype) (v : pval) : result pval := x <- validate d v ;; canon x.
 
 (* a declared field: name, dtype, default value (as written in the Param declaration) *)
 Record field := { f_name : string; f_dtype : dtype; f_default : option pval }.
@@ -143,6 +400,20 @@ Fixpoint norm_args (fs : list field) (args : list (option pval)) : result (list 
            | None, None => Error EMissing
            end ;;
       xs <- norm_args fs' args' ;; Ok (x :: xs)
+  | _, _ => Error EExtra
+  end.
+
+(* the validated instance itself (level 2): norm_args = validate_args then canon_all (ParamNameProofs: norm_args_split) *)
+Fixpoint validate_args (fs : list field) (args : list (option pval)) : result (list pval) :=
+  match fs, args with
+  | [], [] => Ok []
+  | f :: fs', a :: args' =>
+      x <- match a, f_default f with
+           | Some v, _ => validate (f_dtype f) v
+           | None, Some dv => validate (f_dtype f) dv
+           | None, None => Error EMissing
+           end ;;
+      xs <- validate_args fs' args' ;; Ok (x :: xs)
   | _, _ => Error EExtra
   end.
 
@@ -190,3 +461,55 @@ Definition unique_name (fs : list field) (vs : list pval) : result uname :=
     let name := readable (map f_name fs) vs in
     if strlen name <? readable_name_limit then Ok (Readable name) else Ok Hashed
   else Ok Hashed.
+
+(* ---------- the hashed form: the JSON value that json.dumps(params, indent=4, default=hdl21_naming_encoder)
+   serialises (the text is then md5-hashed; serialisation and digest are not modelled, see Proofs/NamingProofs.v).
+   hdl21_naming_encoder: a paramclass instance (dataclass) -> dict of its fields; Module / Generator / ExternalModule ->
+   qualified name and PrimitiveCall / ExternalModuleCall -> name plus parameter suffix (JRef i: the text written for
+   the i-th referenced object); Enum member -> its value (JEnum i: the JSON of the value of member i);
+   Literal (dataclass) -> {"text": s}; and, REPAIRED, Prefixed -> {"prefixed": _value_name(number scaled to UNIT)},
+   Decimal -> {"decimal": _value_name(d)}.  The keys of a NESTED paramclass are its field names, which are fixed by
+   the class: modelled by position. ---------- *)
+Inductive jv :=
+| JNull | JInt (z : Z) | JFloat (r : string) | JStr (s : string) | JBool (b : bool)
+| JEnum (i : N) | JRef (i : N) | JObj (kvs : list (string * jv)).
+
+(* params.py:_value_name : f"{'-' if sign else ''}{coef}e{exp}" on the normal form *)
+Definition canon_str (c e : Z) : string := dec c ++ "e" ++ dec e.
+
+Fixpoint index_keys (n : nat) (l : list jv) : list (string * jv) :=
+  match l with [] => [] | x :: l' => (dec (Z.of_nat n), x) :: index_keys (S n) l' end.
+
+Fixpoint encode (v : pval) {struct v} : jv :=
+  match v with
+  | VNone => JNull
+  | VInt z => JInt z
+  | VFloat r => JFloat r
+  | VStr s => JStr s
+  | VBool b => JBool b
+  | VEnum i => JEnum i
+  | VRef i => JRef i
+  | VRec vs => JObj (index_keys 0 ((fix go (vs : list pval) : list jv :=
+                                      match vs with [] => [] | x :: vs' => encode x :: go vs' end) vs))
+  | VLit s => JObj [("text", JStr s)]
+  | VPref c e => JObj [("prefixed", JStr (canon_str c e))]
+  | VDec c e => JObj [("decimal", JStr (canon_str c e))]
+  | VPrefW _ _ | VDecW _ => JNull          (* not cache-key values *)
+  end.
+
+Fixpoint zip_keys (ks : list string) (l : list jv) : list (string * jv) :=
+  match ks, l with k :: ks', x :: l' => (k, x) :: zip_keys ks' l' | _, _ => [] end.
+
+(* the JSON value of a whole parameter set (cache-key values) *)
+Definition json_tree (fs : list field) (vs : list pval) : jv := JObj (zip_keys (map f_name fs) (map encode vs)).
+
+(* what the implementation encodes is the level-2 value held by the instance *)
+Definition encode_inst (v : pval) : result jv := x <- canon v ;; Ok (encode x).
+
+(* THE PINNED / PRE-REPAIR ENCODER of a Prefixed: pydantic's generic encoder - model_dump() gives {"number": Decimal,
+   "prefix": Prefix}, a Decimal with exponent >= 0 is written as the int int(d), the Prefix as its value.
+   (A Decimal with a negative exponent is written as float(d); that branch is not modelled: None.) *)
+Definition encode_pref_pinned (d : Dec.dec) (q : Z) : option jv :=
+  if 0 <=? Dec.dexp d
+  then Some (JObj [("number", JInt (Dec.dint d * Dec.pow10 (Dec.dexp d))); ("prefix", JInt q)])
+  else None.
